@@ -387,6 +387,21 @@ def run_check(tier, seed):
                '-I' + os.path.join(tree, 'src/drivers/include'), '-I' + os.path.join(tree, 'src/include')]
         unit = cc(tree, [os.path.join(VERIF, 'harness/c04_unit.c')], os.path.join(wd, 'c04_unit'), extra=inc)
         api = cc(tree, [os.path.join(VERIF, 'harness/c04_api.c')], os.path.join(wd, 'c04_api'))
+        # which variant does the tree follow?  (finding FB2-1, property C03: compute_var_shape leaves begin_var =
+        # begin_rec = 0 for a file without variables; the repaired code sets them to the header size.
+        # Header.decodeChunkedV models both; Props.C03.fixed_variant_conservative)
+        vpath = os.path.join(wd, 'variant.nc')
+        open(vpath, 'wb').write(b'CDF\x01' + bytes(28))
+        vo, _n = run_harness(unit, 1, ['%s 36 0' % vpath], wd, 'variant')
+        try:
+            tt = vo[0][0].split()
+            kk = tt.index('|')
+            fixed_variant = int(tt[kk + 2]) == int(tt[kk + 1])
+        except Exception:
+            V.broken_tie('harness c04_unit failed on the variant probe', str(vo)[:600])
+            return V.finish()
+        V.cov['tree_variant'] = 'FB2-1 repaired' if fixed_variant else 'FB2-1 present'
+        variant_line = 'VARIANT %d' % (1 if fixed_variant else 0)
         nvalid = 250 if tier == 'quick' else 8000
         cases = []          # dict(kind, schema|None, path, bytes, tags, chunks)
         schemas = []
@@ -538,7 +553,7 @@ def run_check(tier, seed):
             lines.append('DEC W'); idx.append((ci, 'W'))
             if c['kind'] == 'valid':
                 lines.append('SPEC'); idx.append((ci, 'S'))
-        lo = lean_batch(drv, lines)
+        lo = lean_batch(drv, [variant_line] + lines)[1:]
         lean = {k: v for k, v in zip(idx, lo)}
         log('[S4] Lean model: %d decode requests in %.1fs' % (len(lines), t1.s()))
         # ---- C unit harness
